@@ -29,7 +29,8 @@ RULE = ("strategy runs: 4 window strategies x series 2..40 points (real-valued f
         " Round-5 classes: a 'huge' kind - 66 000..90 000 intervals with n in {2, 3}, one strategy per case."
         " Round-6 classes: RuntimeWarnings on ordinary input are violations (see C04)."
         " Round-7 classes: as C05; abscissae in any container (also collections.deque)."
-        " Round-8 classes: strategies as user classes derived from the library's (constructor forwarding **kwargs); the request also through Weaver.recreate_from_average(n, rfa_class, **parameters).")
+        " Round-8 classes: strategies as user classes derived from the library's (constructor forwarding **kwargs); the request also through Weaver.recreate_from_average(n, rfa_class, **parameters)."
+        " Round-9 classes: as C05 (parameter sweeps on one series); huge sizes also between 2**15 and 2**16.")
 REQUIRED_MONITORS = ["c06:model", "c06:adaptive_windows", "c06:funfit"]
 ASSUMPTIONS = ["adaptive_smooth fixed at 1 (the property's quantifier)", "knife-edge window sizes skipped (counted)"]
 NSHARDS = 16
